@@ -448,10 +448,10 @@ FQ(e) == Q(<< CX, <<"filter", e>> >>)
 OpsRun == IF Tier = "quick" THEN <<8, 60, 63, 66, 200, 5000>> ELSE <<8, 32, 60, 62, 63, 66, 67, 70, 128, 200, 5000, 50000>>
 OpsExp == IF Tier = "quick" THEN <<8, 60, 66, 200>> ELSE <<8, 32, 60, 62, 63, 66, 67, 70, 128, 200>>
 OpTowerFam ==
-     Fam("ops-bang", Map(OpsRun, LAMBDA n : FQ(<<"bangs", n, F2>>)))
+     Fam("ops-bang", Map(OpsRun, LAMBDA n : FQ(<<"bangs", n, F1>>)))
   \o Fam("ops-minus", Map(OpsRun, LAMBDA n : FQ(<<"cmp", ">", <<"negs", n, XA>>, Num("0")>>)))
   \o Fam("ops-and", Map(OpsExp, LAMBDA n : FQ(<<"chain", "&&", n, F1>>)))
-  \o Fam("ops-or", Map(OpsExp, LAMBDA n : FQ(<<"chain", "||", n, F2>>)))
+  \o Fam("ops-or", Map(OpsExp, LAMBDA n : FQ(<<"chain", "||", n, F1>>)))
   \o Fam("ops-not-group", Map(<<5, 20, 31, 33, 40>>, LAMBDA m : FQ(NotGroup(m))))
 
 ---------------------------------------------------------------------------
@@ -547,6 +547,9 @@ Laws ==
     /\ (v = "budget") <=> OverBudget(PadLen(toks), DepthOf(toks))
     /\ (v = "ok") => (Len(Shape(t)) > 0 /\ e.kip = Kind(t))
     /\ (v # "ok") => (e.kql # "kql" /\ e.kml # "kml" /\ e.meta # "meta")
+    \* the operator towers stay out of the band the specification leaves undecided
+    /\ (Cases[ci][1] \in {"ops-bang", "ops-minus", "ops-and", "ops-or", "ops-not-group"})
+          => FLevels(t[3][2][2]) \notin {FilterCeiling + 1, FilterCeiling + 2}
 
 ASSUME PrintT(<<"TABLE", ToJson([str |-> StrBody, raw |-> RawBody])>>)
 =============================================================================
